@@ -107,7 +107,11 @@ pub fn load_known(prop: &str) -> Vec<Known> {
 }
 
 fn sig_matches(known: &str, sig: &str) -> bool {
-    if let Some(prefix) = known.strip_suffix('*') { sig.starts_with(prefix) } else { known == sig }
+    if let Some(prefix) = known.strip_suffix('*') { return sig.starts_with(prefix) }
+    if known == sig { return true }
+    // a panic whose enclosing function could not be symbolised ("?") matches on file and message
+    let (k, s): (Vec<&str>, Vec<&str>) = (known.split('|').collect(), sig.split('|').collect());
+    k.len() == 4 && s.len() == 4 && k[0] == "panic" && s[0] == "panic" && s[2] == "?" && k[1] == s[1] && k[3] == s[3]
 }
 
 // ------------------------------------------------------------------------------------------------
@@ -259,6 +263,8 @@ pub trait Property: Sync {
     fn explore(&self, ctx: &mut Ctx);
     /// The oracle: decides one case. Must be a pure function of the case and the code under test.
     fn check(&self, case: &Value) -> Outcome;
+    /// replay of one saved case (default: the oracle itself)
+    fn replay(&self, case: &Value) -> Outcome { self.check(case) }
     /// true if `exhaustive` may be claimed for this tier
     fn exhaustive(&self, _tier: Tier) -> bool { false }
     /// number of workers wanted (default: all cores)
@@ -542,7 +548,7 @@ pub fn replay_main(p: &dyn Property, path: &str) -> i32 {
     let Ok(txt) = std::fs::read_to_string(path) else { eprintln!("cannot read {path}"); return 2 };
     let Ok(v): Result<Value, _> = serde_json::from_str(&txt) else { eprintln!("cannot parse {path}"); return 2 };
     let case = v.get("case").cloned().unwrap_or(v.clone());
-    match p.check(&case) {
+    match p.replay(&case) {
         Outcome::Fail { signature, detail } => {
             println!("VIOLATION property={} replay={}", p.id(), path);
             println!("  signature: {signature}");
